@@ -77,9 +77,17 @@ W8 == { <<Boot, Call(2, 1, 1, "root", 0 - 1), Auto(2, "ok-newcap", na), Slow(3, 
         \o extra \o <<Ret(1, "ok-newcap")>> :
           na \in BOOLEAN, ms \in {0, 3}, extra \in { <<>>, <<Call(6, 3, 5, "", 0 - 1)>> } }
 
+\* W9: a local call is cancelled; its Finish is in flight when the peer's Return for it arrives
+LCallC(h, t) == [Act("l-call") EXCEPT !.h = h, !.tag = t, !.kind = "cancellable"]
+LCancel(t) == [Act("l-cancel") EXCEPT !.tag = t]
+W9 == { <<LBoot, PRet(0, "bootcap", 9, 0 - 1), LCallC("boot", 101), Hold("finish", 0 - 1), LCancel(101), PRet(1, k, 0 - 1, 101)>> \o x \o <<Go>> \o y :
+          k \in {"results", "exception"},
+          x \in { <<>>, <<LCall("boot", 102)>>, <<Boot>> },
+          y \in { <<>>, <<LCall("boot", 103), PRet(2, "results", 0 - 1, 103)>>, <<LRel("boot")>> } }
+
 VARIABLE done
 Init == done = FALSE
 Next == /\ ~done /\ done' = TRUE
-        /\ \A s \in W1 \cup W2 \cup W3 \cup W4 \cup W5 \cup W6 \cup W7 \cup W8 : PrintT(<<"SCRIPT", ToJson(s)>>)
+        /\ \A s \in W1 \cup W2 \cup W3 \cup W4 \cup W5 \cup W6 \cup W7 \cup W8 \cup W9 : PrintT(<<"SCRIPT", ToJson(s)>>)
 Spec == Init /\ [][Next]_done
 =============================================================================
